@@ -276,6 +276,45 @@ static CMR_ERROR op_mat(CMR* cmr, TOKS* t, OUT* o)
     CMRchrmatFree(cmr, &A);
     return e;
   }
+  else if (ty[0] == 'd')
+  {
+    /* double matrices: mat <what> d <eps*64> m n (entry*64)...  ; every value is a multiple of 1/64, hence exact */
+    long long epsn = tk_int(t);
+    CMR_INTMAT* AI = NULL;
+    HCALL( in_intmat(cmr, t, &AI) );
+    if (t->bad) { if (AI) CMRintmatFree(cmr, &AI); return CMR_OKAY; }
+    double eps = (double) epsn / 64.0;
+    CMR_DBLMAT* A = NULL; CMR_DBLMAT* R = NULL; CMR_CHRMAT* RC = NULL;
+    HCALL( CMRdblmatCreate(cmr, &A, AI->numRows, AI->numColumns, AI->numNonzeros) );
+    for (size_t r = 0; r <= AI->numRows; ++r) A->rowSlice[r] = AI->rowSlice[r];
+    for (size_t e = 0; e < AI->numNonzeros; ++e) { A->entryColumns[e] = AI->entryColumns[e]; A->entryValues[e] = AI->entryValues[e] / 64.0; }
+    CMRintmatFree(cmr, &AI);
+    CMR_ERROR e = CMR_OKAY;
+    if (!strcmp(what, "transpose")) e = CMRdblmatTranspose(cmr, A, &R);
+    else if (!strcmp(what, "copy")) e = CMRdblmatCopy(cmr, A, &R);
+    else if (!strcmp(what, "support")) e = CMRdblmatSupport(cmr, A, eps, &RC);
+    else if (!strcmp(what, "ssupport")) e = CMRdblmatSignedSupport(cmr, A, eps, &RC);
+    else if (!strcmp(what, "tochr")) e = CMRdblmatToChr(cmr, A, eps, &RC);
+    else if (!strcmp(what, "isbinary")) out_str(o, CMRdblmatIsBinary(cmr, A, eps, NULL) ? " yes" : " no");
+    else if (!strcmp(what, "isternary")) out_str(o, CMRdblmatIsTernary(cmr, A, eps, NULL) ? " yes" : " no");
+    else t->bad = 1;
+    if (!e && R)
+    {
+      /* print scaled by 64 as integers, in the raw-CSR layout of the other matrix types */
+      out_fmt(o, " M %zu %zu %zu |", R->numRows, R->numColumns, R->numNonzeros);
+      for (size_t r = 0; r <= R->numRows; ++r) out_fmt(o, " %zu", R->rowSlice[r]);
+      out_str(o, " |");
+      for (size_t k = 0; k < R->rowSlice[R->numRows]; ++k) out_fmt(o, " %zu", R->entryColumns[k]);
+      out_str(o, " |");
+      for (size_t k = 0; k < R->rowSlice[R->numRows]; ++k) out_fmt(o, " %lld", (long long) (R->entryValues[k] * 64.0));
+    }
+    if (!e && RC) out_chrmat(o, RC);
+    if (e && (R || RC)) out_str(o, " outs=1");
+    if (R) CMRdblmatFree(cmr, &R);
+    if (RC) CMRchrmatFree(cmr, &RC);
+    CMRdblmatFree(cmr, &A);
+    return e;
+  }
   else
   {
     CMR_INTMAT* A = NULL; CMR_INTMAT* R = NULL; CMR_CHRMAT* RC = NULL;
